@@ -217,6 +217,8 @@ def _run_hypothesis(prop, facet, n, seed, shrink_budget, beat=None):
         if beat is not None:
             beat(case)
         try:
+            if isinstance(case, dict) and case.get("lived") is not None:
+                ctx.label("object-with-a-past")
             facet.check(case, ctx)
         except Violation as v:
             if state["first_fail"] is None:
